@@ -451,16 +451,20 @@ pub mod prelude {
         ensures s.len() == 0 ==> #[trigger] from_str_spec::<u16>(s) is Err
     {}
 
-    // std's address parsers reject any text containing a space or a CR (valid texts consist of hex
-    // digits, '.', ':' only)
+    // std's address parsers accept only texts over the address alphabets: decimal digits and '.'
+    // for IPv4; hexadecimal digits, ':' and '.' for IPv6 (so no space, CR or other letter)
+    pub open spec fn addr_byte(b: u8) -> bool {
+        (48u8 <= b <= 57u8) || (65u8 <= b <= 70u8) || (97u8 <= b <= 102u8) || b == 58u8 || b == 46u8
+    }
+    pub open spec fn addr_bytes(s: Seq<u8>) -> bool { forall|i: int| 0 <= i < s.len() ==> addr_byte(#[trigger] s[i]) }
     pub open spec fn bytes_no_sp_cr(s: Seq<u8>) -> bool { forall|i: int| 0 <= i < s.len() ==> #[trigger] s[i] != 32u8 && s[i] != 13u8 }
     #[verifier::external_body]
     pub broadcast proof fn axiom_ipv4_text_no_sep(s: Seq<u8>)
-        ensures #[trigger] from_str_spec::<Ipv4Addr>(s) is Ok ==> bytes_no_sp_cr(s)
+        ensures #[trigger] from_str_spec::<Ipv4Addr>(s) is Ok ==> addr_bytes(s) && bytes_no_sp_cr(s)
     {}
     #[verifier::external_body]
     pub broadcast proof fn axiom_ipv6_text_no_sep(s: Seq<u8>)
-        ensures #[trigger] from_str_spec::<Ipv6Addr>(s) is Ok ==> bytes_no_sp_cr(s)
+        ensures #[trigger] from_str_spec::<Ipv6Addr>(s) is Ok ==> addr_bytes(s) && bytes_no_sp_cr(s)
     {}
 
     /// value of a decimal digit string
